@@ -1,12 +1,15 @@
 (* Judge for C07.
-   case = (text intended obs_sentences obs_forest obs_schemas)
+   case = (text intended obs_sentences obs_forest obs_schemas obs_raw)
      text          code points of the copybook
      intended      entries the generator printed: (level name? filler? redefines? pic occ compact-text indexed value?)
                    level = the two characters; x? = () or (string); pic/occ/indexed = 0/1;
-                   value? = the VALUE literal as written, quotes included
+                   value? = the VALUE literal as written, quotes included;
+                   a tenth field 0/1: the level number was printed with one digit (5 for 05)
      obs_sentences (0 entries) | (1 exn): what dde_sentences + clause_dict returned (same shape, indexed = 0)
      obs_forest    (0 trees) | (1 exn): structure(...), tree = (level name unique_name redefines? compact-text (kids))
      obs_schemas   (0 nodes) | (1 exn): list(schema_iter(...)), node = (kind title? anchor? cobol? ((key node) ...))
+     obs_raw       (0 ((level text) ...)) | (1 exn): dde_sentences(reference_format(text)) before clause_dict,
+                   text = the words of the clause text joined by single blanks
    good  = Layer A returned the intended entries, the observed forest is the one the specification
            (Spec/Dde.v) demands of the intended entries and equals the model's, the schemas equal
            the model's, and a well-formed copybook ends in no error and its schemas define every kept
@@ -14,7 +17,12 @@
    agree = forest and schemas equal the model run on the OBSERVED sentences.
    known = the trigger of a known finding holds (for finding 5 also: the observed sentences are the
            intended ones with exactly the clause texts of the triggering entries cut at their first
-           period-white-space pair). *)
+           period-white-space pair; for finding 6 also: the raw sentences are what the text-layer model
+           returns on the printed text; for finding 7 also: structure raised ValueError).
+   For a copybook whose REDEFINES targets name exactly one earlier sibling up to letter case but not
+   exactly (finding 7), good demands instead that nothing raises, that the forest is the one the
+   specification demands and that the schemas define every kept entry once, nested as the forest
+   (compared without regard to letter case). *)
 From Coq Require Import ZArith NArith List Bool Arith.
 Import ListNotations.
 Require Import SR.Base.Sx SR.Base.Res SR.Spec.Dde SR.Model.Structure.
@@ -34,6 +42,7 @@ Definition entry_of_sx (s : sx) : entry :=
      etext := as_str (nth_sx 6 s) |}.
 Definition indexed_of_sx (s : sx) : bool := as_bool (nth_sx 7 s).
 Definition value_of_sx (s : sx) : option str := as_optstr (nth_sx 8 s).
+Definition onedigit_of_sx (s : sx) : bool := as_bool (nth_sx 9 s).
 
 Definition optstr_eqb (a b : option str) : bool :=
   match a, b with
@@ -279,6 +288,46 @@ Definition truncated_entry (s : sx) : entry :=
   let e := entry_of_sx s in
   if value_period_ws s then with_text e (cut_term (etext e)) else e.
 
+(* Known finding 6: a level number written with one digit.  The sentence pattern wants two adjacent
+   digits, so the entry is not seen as an entry; what comes back instead depends on the digits that
+   follow, and is what the text-layer model (Model/RefFormat.v) returns on the printed text. *)
+Fixpoint lines_go (cur t : list N) : list (list N) :=
+  match t with
+  | [] => match cur with [] => [] | _ => [rev cur] end
+  | c :: r => if (c =? 10)%N then rev (c :: cur) :: lines_go [] r else lines_go (c :: cur) r
+  end.
+(* the lines a text stream over the text yields: split behind every line feed *)
+Definition text_lines (t : list N) : list (list N) := lines_go [] t.
+Definition model_sentences (text : list N) : res (list (list N * list N)) :=
+  match SR.Model.RefFormat.reference_format (text_lines text) [] with
+  | Ok out => Ok (map (fun p => (fst p, SR.Model.RefFormat.compact (snd p))) (SR.Model.RefFormat.dde_sentences out))
+  | Err e => Err e
+  end.
+Definition sx_sentences (r : res (list (list N * list N))) : sx :=
+  sx_of_res (fun l => L (map (fun p => L [of_Ns (fst p); of_Ns (snd p)]) l)) r.
+
+(* Known finding 7: names are compared exactly.  The copybook as the specification sees it, as written
+   and with every data name and REDEFINES target in upper case. *)
+Definition kept_list (l : list entry) : list dde :=
+  match mk_ddes 0 l with [] => [] | d :: r => d :: filter keep r end.
+Definition espec (k : list dde) : list (N * list N * option (list N)) :=
+  map (fun d => (lvl_num (dlv d), dde_name (de d), eredef (de d))) k.
+Definition espec_up (k : list dde) : list (N * list N * option (list N)) :=
+  map (fun d => (lvl_num (dlv d), map upper (dde_name (de d)), option_map (map upper) (eredef (de d)))) k.
+(* every REDEFINES target names exactly one earlier sibling when letter case is ignored, but not as
+   written: some target differs from its sibling's name in letter case only, and no sibling has
+   exactly that spelling (two exact matches would be two matches in upper case as well) *)
+Definition case_only_redefines (l : list entry) : bool :=
+  let k := kept_list l in redefines_ok (espec_up k) && negb (redefines_ok (espec k)).
+Definition up_entry (e : entry) : entry :=
+  {| elv := elv e; ename := option_map (map upper) (ename e); efill := option_map (map upper) (efill e);
+     eredef := option_map (map upper) (eredef e); epic := epic e; eocc := eocc e; etext := etext e |}.
+Fixpoint sx_upper (s : sx) : sx :=
+  match s with
+  | A z => if (97 <=? z) && (z <=? 122) then A (z - 32) else A z
+  | L l => L (map sx_upper l)
+  end.
+
 Definition spec_holds (kept : list dde) (obs_f : list tree) : bool :=
   let pre := preorder_f obs_f in
   let K := map (fun d => lvl_num (dlv d)) kept in
@@ -321,12 +370,23 @@ Definition judge (c : sx) : sx :=
                && sx_eqb (L (map (fun x => skel (snode_of_sx x)) (as_list (nth_sx 1 oschema))))
                          (L (map skel_tree mforest))
     else true in
-  let good := layerA && forest_ok && spec_ok && schema_ok && wf_ok in
+  (* finding 7: well-formed up to letter case *)
+  let k7 := case_only_redefines intended in
+  let nf := match structure (map up_entry intended) with Ok f => f | Err _ => [] end in
+  let good7 :=
+    res_ok_sx oforest && res_ok_sx oschema
+    && spec_holds (kept_list intended) (map obs_tree (as_list (nth_sx 1 oforest)))
+    && (if wf_copybook (map up_entry intended) nf
+        then sx_eqb (sx_upper (L (map (fun x => skel (snode_of_sx x)) (as_list (nth_sx 1 oschema)))))
+                    (sx_upper (L (map skel_tree nf)))
+        else true) in
+  let good := layerA && (if k7 then good7 else forest_ok && spec_ok && schema_ok && wf_ok) in
   (* model on the observed sentences *)
   let agree :=
     if res_ok_sx osent then
       sx_eqb oforest (sx_forest (structure observed)) && sx_eqb oschema (sx_schemas (schemas observed))
     else sx_eqb oforest osent && sx_eqb oschema osent in
+  let oraw := nth_sx 5 c in
   let known :=
     if ends_badly text then Some 1
     else if existsb keyword_prefixed intended then Some 3
@@ -334,6 +394,11 @@ Definition judge (c : sx) : sx :=
     else if existsb redef_in_occurs mforest then Some 2
     else if existsb value_period_ws isx
          then (if res_ok_sx osent && entries_sim (map truncated_entry isx) observed then Some 5 else None)
+    else if existsb onedigit_of_sx isx
+         then (if sx_eqb oraw (sx_sentences (model_sentences text)) then Some 6 else None)
+    else if k7
+         (* a repaired tree (good) differs from the model, which raises: still the known family, no finding *)
+         then (if good || sx_eqb oforest (sx_forest (Err ValueError)) then Some 7 else None)
     else None in
   let branch :=
     (match intended with
@@ -349,4 +414,4 @@ Definition judge (c : sx) : sx :=
      end) + (if dom then 0 else 10) in
   verdict known good agree branch
     (L [of_bool layerA; of_bool forest_ok; of_bool spec_ok; of_bool schema_ok; of_bool wf_ok;
-        sx_forest mf; sx_schemas ms]).
+        sx_forest mf; sx_schemas ms; of_bool k7]).
